@@ -85,7 +85,21 @@ pub fn check(prop: &str, tier: &str) -> i32 {
             check::write_evidence(prop, &e1);
             c1.max(c2)
         }
-        "C13" => check::check::<C13>(prop, tier, "exploration", serde_json::Value::Null),
+        "C13" => {
+            // Two sub-batches: configuration transitions with statuses set by the harness, and the real example
+            // backend losing a connection while events are written.
+            let (c1, e1) = check::run_check::<C13>(prop, tier, "exploration", serde_json::Value::Null);
+            if c1 == 2 {
+                return 2;
+            }
+            let (c2, e2) = check::run_check::<crate::fam_c17::C17>(prop, tier, "exploration", serde_json::Value::Null);
+            if c2 == 2 {
+                return 2;
+            }
+            let ev = merge_evidence(e1.unwrap(), e2.unwrap(), "configurations", "example_backend", c1.max(c2));
+            check::write_evidence(prop, &ev);
+            c1.max(c2)
+        }
         "C14" => {
             // "The same hash in every run": compare this process with two fresh ones.
             let here = fam_c14::hash_of(&fam_c14::CANON);
